@@ -14,5 +14,6 @@ cargo build --config "paths=[\"$REPO\"]" 2>&1 | grep -E "^error" -A6 | head -20
 export FFV_VERIF_DIR=/root/vdev FFV_REPO_SRC="$REPO/src"
 export FFV_DEV_BIN=$CARGO_TARGET_DIR/debug/ffv FFV_REL_BIN=$CARGO_TARGET_DIR/release/ffv FFV_SCRATCH=$CARGO_TARGET_DIR/scratch
 mkdir -p "$FFV_SCRATCH"
+cc -shared -fPIC -O1 -o $CARGO_TARGET_DIR/fakeclock.so /verif/harness/shim/fakeclock.c -ldl && export FFV_FAKECLOCK=$CARGO_TARGET_DIR/fakeclock.so
 "$FFV_REL_BIN" check "$ID" --tier "${TIER:-quick}" --seed "${VERIF_SEED:-0}" "$@"
 echo "rc=$?"
